@@ -91,6 +91,10 @@ def run(tier):
     for nb, nf in enumerate((1200, 1500) if tier == "quick" else (1200, 1500, 2200)):
         big = "".join("fn f%d(a: i32, b: i32) -> i32\n{\n\tvar x: i32 = a + b * %d;\n\tif x == %d\n\t{\n\t\tx = x - 1;\n\t}\n\treturn: x\n}\n" % (i, i, i) for i in range(nf))
         cases.append(("big%d" % nb, big, "big-module"))
+    for nd, terms in enumerate((8, 14, 30, 60)):
+        ids = ["a", "b", "c", "d"]
+        e1 = " + ".join(ids[i % 4] for i in range(terms)); e2 = " * ".join(ids[(i + 1) % 4] for i in range(terms)); e3 = " + ".join("%s * %s" % (ids[i % 4], ids[(i + 2) % 4]) for i in range(terms // 2))
+        cases.append(("dense%d" % nd, "fn mix(a: u32, b: u32, c: u32, d: u32) -> u32\n{\n\tvar x: u32 = %s;\n\tvar y: u32 = %s;\n\treturn: %s\n}\n" % (e1, e2, e3), "dense-expressions"))
     impl = C.run_harness("syntax-tree", [(c[0], c[1]) for c in cases], ck.work + "/tree", timeout=3000)
     items = [("refparse", c[0], impl[c[0]][0]) for c in cases if c[0] in impl and len(impl[c[0]]) >= 6 and not impl[c[0]][0].startswith("lexerr") and c[2] != "big-module"]
     model = C.run_model(items, ck.work + "/tree", timeout=3000)
